@@ -52,6 +52,13 @@ func prefillPair(r *gen.Rand, t *schema.Struct) (reflect.Value, reflect.Value) {
 // evolvePair picks a (writer, reader) pair.
 func evolvePair(r *gen.Rand, c *gen.EvolveCfg) (w, t *schema.Struct, class string) {
 	if r.Chance(1, 12) {
+		// static types read with their own schema (nil elements travel as empty structs,
+		// which the reader must still default-initialise, ...)
+		z := []interface{}{&zoo.DefsNCHolder{}, &zoo.Defs2{}, &zoo.UnknownNest{}, &zoo.MutA{}, &zoo.Tree{}, &zoo.PV{}, &zoo.Ring1{}}
+		s := gen.Zoo(z[r.Intn(len(z))])
+		return s, s, "zoo:same:" + s.Name
+	}
+	if r.Chance(1, 12) {
 		w = gen.Zoo(&zoo.Node{})
 		if r.Bool() {
 			return w, gen.Zoo(&zoo.NodeU{}), "zoo:Node->NodeU"
@@ -73,6 +80,39 @@ func evolvePair(r *gen.Rand, c *gen.EvolveCfg) (w, t *schema.Struct, class strin
 		}}
 		o.Build()
 		return o, o, "same-schema-byvalue-fixed-layout"
+	}
+	if r.Chance(1, 15) {
+		// readers that know no field at all (at the top and/or nested) of messages whose
+		// ids start at 0: everything is unknown and must be skipped
+		mkW := func() *schema.Struct {
+			x := &schema.Struct{UnknownIdx: -1}
+			for i, n := 0, 1+r.Intn(3); i < n; i++ {
+				x.Fields = append(x.Fields, &schema.Field{ID: uint16(i), Req: schema.Req(r.Intn(3)), T: gen.FormType(r, gen.ValForms[r.Intn(9)], gen.DefaultTypeCfg(), 2)})
+				if x.Fields[i].Req == schema.Optional && x.Fields[i].T.IsScalar() && r.Bool() {
+					x.Fields[i].T = schema.PtrTo(x.Fields[i].T)
+				}
+			}
+			x.Build()
+			return x
+		}
+		winner := mkW()
+		empty := &schema.Struct{UnknownIdx: -1, HasUnknown: r.Bool()}
+		empty.Build()
+		wo := &schema.Struct{UnknownIdx: -1, Fields: []*schema.Field{
+			{ID: 0, Req: schema.Default, T: schema.StructOf(winner, true)},
+			{ID: 1, Req: schema.Default, T: schema.ListOf(schema.StructOf(winner, false))},
+			{ID: 2, Req: schema.Default, T: schema.Scalar(schema.I32)},
+		}}
+		wo.Build()
+		to := &schema.Struct{UnknownIdx: -1, HasUnknown: r.Bool()}
+		if r.Bool() {
+			to.Fields = []*schema.Field{
+				{ID: 0, Req: schema.Default, T: schema.StructOf(empty, true)},
+				{ID: 1, Req: schema.Default, T: schema.ListOf(schema.StructOf(empty, false))},
+			}
+		}
+		to.Build()
+		return wo, to, "fieldless-reader"
 	}
 	tc := gen.DefaultTypeCfg()
 	tc.BigIDs = r.Chance(1, 6)
